@@ -1,6 +1,6 @@
 (* pins for C01: statements of the property theorems as of the time of pinning *)
 From Coq Require Import NArith List.
-From Blue Require Import Gen.Const_Lsm Lsm.Model Lsm.LoadProofs Lsm.Ordered Lsm.CompactProofs Lsm.GcProofs Lsm.History.
+From Blue Require Import Gen.Const_Lsm Lsm.Model Lsm.LoadProofs Lsm.Ordered Lsm.CompactProofs Lsm.GcProofs Lsm.WfProofs Lsm.History.
 Import ListNotations.
 Open Scope N_scope.
 From Blue Require Import Lsm.Props_C01.
@@ -9,4 +9,5 @@ Check C01_load_newest : forall s k t, wf_version (ver s) -> Ordered s -> match l
 Check C01_compaction_preserves_view : forall s c outs, wf_version (ver s) -> Ordered s -> valid_compactionb (ver s) c = true -> outputs_okb (ver s) c outs = true -> forall k, kview (compact s c outs) k = kview s k.
 Check C01_compaction_preserves_reads : forall s c outs, Inv s -> acceptedb s (OCompact c outs) = true -> forall k t, load (compact s c outs) k t = load s k t.
 Check C01_gc_preserves_reads : forall s c outs k, wf_version (ver s) -> Ordered s -> valid_compactionb (ver s) c = true -> S (cupper c) = length (ver s) -> gc_outputs_okb (ver s) c outs = true -> hd_value (kview (compact s c outs) k) = hd_value (kview s k) /\ desc_ts (kview (compact s c outs) k) /\ (forall e, In e (kview (compact s c outs) k) -> In e (kview s k)).
+Check C01_compaction_keeps_levels_well_formed : forall s c outs, wf_version (ver s) -> Ordered s -> valid_compactionb (ver s) c = true -> (outputs_okb (ver s) c outs = true \/ gc_outputs_okb (ver s) c outs = true) -> wf_versionb (apply_compaction (ver s) c outs) = true.
 Check C01_invariant_reachable : forall n ops, all_accepted (init_at n) ops = true -> Inv (run (init_at n) ops).
